@@ -394,10 +394,27 @@ class Arc3D(object):
             r_vec = (math.sin(ax) * r, math.sin(ay) * r, math.sin(az) * r)
             self._min = Point3D(o.x - r_vec[0], o.y - r_vec[1], o.z - r_vec[2])
             self._max = Point3D(o.x + r_vec[0], o.y + r_vec[1], o.z + r_vec[2])
-        else:  # get the min and max of the Arc2D
-            min_pt2d, max_pt2d = self._arc2d.min, self._arc2d.max
-            self._min = self.plane.xy_to_xyz(min_pt2d)
-            self._max = self.plane.xy_to_xyz(max_pt2d)
+        else:  # each coordinate is o_i + r * amp_i * cos(t - phi_i) along the arc
+            o, r, p1, p2 = self._plane.o, self.radius, self.p1, self.p2
+            a1, a2, inverted = self.a1, self.a2, self.is_inverted
+            pi2 = 2 * math.pi
+            mins, maxs = [], []
+            for o_i, x_i, y_i, s_i, e_i in zip(o, self._plane.x, self._plane.y, p1, p2):
+                amp = r * math.sqrt(x_i ** 2 + y_i ** 2)
+                lo, hi = min(s_i, e_i), max(s_i, e_i)
+                if amp != 0:
+                    phi = math.atan2(y_i, x_i) % pi2  # angle where the coordinate peaks
+                    for ang, is_max in ((phi, True), ((phi + math.pi) % pi2, False)):
+                        in_span = (ang >= a1 or ang <= a2) if inverted \
+                            else a1 <= ang <= a2
+                        if in_span and is_max:
+                            hi = max(hi, o_i + amp)
+                        elif in_span:
+                            lo = min(lo, o_i - amp)
+                mins.append(lo)
+                maxs.append(hi)
+            self._min = Point3D(*mins)
+            self._max = Point3D(*maxs)
 
     @staticmethod
     def _plane_from_vertices(pt1, pt2, pt3):
